@@ -26,9 +26,9 @@ def dump(name, n):
     return [f"result('{name}{k}', {name}[{k}])" for k in range(n)]
 
 # each program: (name, params, body lines, reference(fn of i) -> list of (tag, value) or "PANIC")
-def family():
+def family(sizes=(1, 2, 3)):
     out = []
-    for n in (1, 2, 3):
+    for n in sizes:
         base = [10 * (k + 1) for k in range(n)]
         idxs = list(range(-2, n + 2))
         # read
@@ -106,7 +106,7 @@ def run_one(name, body, i):
 
 DRIVER = r'''
 I_ = INPUT
-fam = family()
+fam = family(tuple(I_.get("sizes", (1, 2, 3))))
 jobs = [(name, body, i, ref) for name, idxs, body, ref in fam for i in idxs]
 if I_.get("only"):
     jobs = [j for j in jobs if j[0] == I_["only"]]
